@@ -335,6 +335,23 @@ func Plan(tier string) *harness.Plan {
 		}
 		evals, nt := int64(0), int64(0)
 		failed := map[string]int{}
+		// only the first 40 failing inputs of a (program, mode) are reported one by one; the rest are folded into one
+		// digest case per (program, mode), so that ANY change of the failing set is a new, unlisted case
+		rest := map[string]uint64{}
+		fold := func(k string, b []byte, got bool) {
+			h := rest[k]
+			if h == 0 {
+				h = 14695981039346656037
+			}
+			for _, c := range b {
+				h = (h ^ uint64(c)) * 1099511628211
+			}
+			g := uint64(2)
+			if got {
+				g = 3
+			}
+			rest[k] = (h ^ g ^ uint64(len(b))<<8) * 1099511628211
+		}
 		check := func(b []byte, want bool) {
 			if want {
 				nt++
@@ -353,6 +370,8 @@ func Plan(tier string) *harness.Plan {
 				if got := s.accepts(b); got != want {
 					if failed[modes[mi].name] < 40 {
 						w.Fail(&harness.Case{Op: "nfa-accepts", Mode: modes[mi].name, Pattern: p.src, Hay: strconv.Quote(string(b)), Want: strconv.FormatBool(want), Got: strconv.FormatBool(got), Cluster: p.kind + "/" + modes[mi].name})
+					} else {
+						fold(modes[mi].name, b, got)
 					}
 					failed[modes[mi].name]++
 				}
@@ -365,6 +384,8 @@ func Plan(tier string) *harness.Plan {
 				if got := e2e.Match(b); got != want {
 					if failed["e2e"] < 40 {
 						w.Fail(&harness.Case{Op: "coregex.Match", Mode: "end-to-end", Pattern: p.src, Hay: strconv.Quote(string(b)), Want: strconv.FormatBool(want), Got: strconv.FormatBool(got), Cluster: p.kind + "/end-to-end"})
+					} else {
+						fold("e2e", b, got)
 					}
 					failed["e2e"]++
 				}
@@ -422,6 +443,12 @@ func Plan(tier string) *harness.Plan {
 		for k, n := range failed {
 			if n > 40 {
 				w.C["failing_inputs_beyond_the_40_reported_per_program_"+k] += int64(n - 40)
+				mode := k
+				if k == "e2e" {
+					mode = "end-to-end"
+				}
+				w.Fail(&harness.Case{Op: "further-failing-inputs", Mode: mode, Pattern: p.src, Hay: strconv.Quote("<all inputs after the first 40 failing ones>"), Want: "no further failing inputs",
+					Got: fmt.Sprintf("%d further failing inputs, digest %016x over (input, answer) in enumeration order", n-40, rest[k]), Cluster: p.kind + "/" + mode})
 			}
 		}
 		w.C["evaluations"] += evals
@@ -449,7 +476,7 @@ func Plan(tier string) *harness.Plan {
 		Rule:   "Programs: . and (?s:.), every Perl and POSIX class and negation, Unicode category/script tables and negations, every range [x-y] and its negation with endpoints at the UTF-8 encoding boundaries (±1), case-folded classes, single-rune literals and (?i:r) for runes with a non-trivial simple-fold orbit, and two-class concatenations. Each is compiled by nfa.Compiler in default, rune-state and ASCII-only mode and walked by an independent anchored simulator over the NFA's exported states, and end-to-end by coregex.Match(^(?:c)$); inputs: the UTF-8 encoding of EVERY code point (classes, dot) or the fold orbit ± 1 and boundary runes (literals, concatenations), every byte string of length <= 2, every string of length 3 (thorough: 4) over 25 boundary bytes. Oracle: package regexp (class membership from regexp/syntax's own range tables for the code-point sweep, cross-validated against regexp.Match every 4099th rune; regexp.Match for byte strings). At most 40 failing inputs per program and mode are reported individually (the rest are counted). states = transitions = acceptance evaluations; non-trivial = inputs the oracle accepts.",
 		Level:  "model_checking",
 		Bounds: map[string]any{"programs": len(ps), "byte_strings": len(bstrs), "code_points": 0x110000 - 0x800, "modes": []string{"default", "rune-states", "ascii-only", "end-to-end"}},
-		Budget: map[bool]time.Duration{false: 150 * time.Second, true: 40 * time.Minute}[thorough],
+		Budget: map[bool]time.Duration{false: 150 * time.Second, true: 25 * time.Minute}[thorough],
 		Assume: []string{"ASCII-only mode is compared on ASCII inputs only", "the independent simulator interprets RuneAny states as 'one decoded rune (invalid byte = width 1)'", "byte strings longer than 4 are not explored"},
 	}
 }
